@@ -94,6 +94,10 @@ func init() {
 					R.add(o)
 				}
 			}},
+		Rule{ID: "C11.h", Explain: "the values the verifier derives itself cannot be supplied by the prover: revocation.Proof.Nu / Challenge, the verified Accumulator memo of SignedAccumulator and the proof's acc pointer are excluded from decoding.",
+			Run: func(P *Program, R *Report) {
+				notDecodableRule(P, R, "C11.h", [][2]string{{"revocation.Proof", "Nu"}, {"revocation.Proof", "Challenge"}, {"revocation.Proof", "acc"}, {"revocation.SignedAccumulator", "Accumulator"}})
+			}},
 		Rule{ID: "C11.g", Explain: "determinism: on the verifier path no loop over a map returns a value that depends on which qualifying key was met first. revocationAttrIndex does (known finding K2).",
 			Run: func(P *Program, R *Report) { mapOrderVerdictRule(P, R) }},
 	)
